@@ -3,6 +3,7 @@
 
     hist  <Kind> <cfg…> | <op> <args…> | … | PROBE <op> <args…>
     histp <Kind> <cfg…> | …                                         predicate-only lines: constant answer `same`
+    histo <Kind> <cfg…> | … | PROBE <streaming op>                   observation lines: model column only (spec `-`)
 
   model column = result of the probe after running the history on ONE model object (`Machine.after`);
   spec column  = result of the probe on a fresh, equally configured model object (`Machine.fresh`: only the explicit
@@ -255,7 +256,12 @@ def hist (kind : String) (cfg : List String) (steps : List (List String)) (probe
       let bs := 8 * a.1.blocklen
       let k ← parseOptBytes? key
       let c0 : HmacO.Cfg := { core := core, blocksize := bs, K := none }
-      answer HmacO.machine (HmacO.setkeyCfg c0 k) (hmacOp core bs) steps probe
+      -- `HMAC(h,k)` is `HMAC(h)` followed by `setkey(k)` (which may already use the shared hash object)
+      let steps := match key with
+        | "-" => steps
+        | _ => ["setkey", key] :: steps
+      let _ := k
+      answer HmacO.machine c0 (hmacOp core bs) steps probe
   | "TLSH", [b, w, c] => do
       let cfg : Tlsh.Cfg := ⟨← parseNat? b, ← parseNat? w, ← parseNat? c⟩
       if cfg.valid = false then some ("ERR", "ERR") else
@@ -315,6 +321,14 @@ def hist (kind : String) (cfg : List String) (steps : List (List String)) (probe
 def handle : Handler := fun op args =>
   match op, args with
   | "histp", _ => some ("same", "same")
+  | "histo", kind :: rest =>
+    -- observation lines: the last operation is not a one-shot call; model column only
+    match (splitBar rest).reverse with
+    | ("PROBE" :: probe) :: stepsRev =>
+      match stepsRev.reverse with
+      | cfg :: steps => (hist kind cfg steps probe).map fun r => (r.1, "-")
+      | [] => none
+    | _ => none
   | "hist", kind :: rest =>
     match (splitBar rest).reverse with
     | ("PROBE" :: probe) :: stepsRev =>
